@@ -162,7 +162,10 @@ class RtdScaling(object):
 
     @staticmethod
     def _get_negative_real_root(roots):
-        filtered = [r for r in roots if not np.iscomplex(r) and r.real < 0.0]
+        # A resistance only marginally below R0 has a root that is zero to within
+        # rounding error, which may be found as 0.0 or as a tiny positive number;
+        # the other real root is positive and far away from zero.
+        filtered = [r for r in roots if not np.iscomplex(r) and r.real < 1e-9]
         if len(filtered) != 1:
             raise ValueError("Expected single real valued negative root for RTD equation")
         return filtered[0].real
